@@ -45,7 +45,7 @@ REAL_VS_STUB = {
     'stub_or_simulator_owned': ['user flatten/unflatten callables (universe.Funcs)', 'GC timing (disabled; injected as a step)',
                                 'history of mutations / registry changes (choice tape)'],
 }
-EXPECTED_PROBES = ('step:create', 'step:mutate_source', 'step:mutate_handout', 'step:operand', 'step:registry', 'step:drop_tree',
+EXPECTED_PROBES = ('cycle-reclaimed:custom-metadata-childless', 'cycle-reclaimed:custom-entries', 'cycle-reclaimed:dict-key', 'cycle-reclaimed:defaultdict-factory', 'cycle-reclaimed:namedtuple-class', 'step:create', 'step:mutate_source', 'step:mutate_handout', 'step:operand', 'step:registry', 'step:drop_tree',
                    'step:gc', 'step:cycle', 'operand:failed', 'operand:ok', 'leaf-release-checked', 'cycle-reclaimed')
 
 ROUTES = ('flatten', 'structure', 'with_path', 'with_accessor', 'child', 'children', 'one_level', 'transform', 'compose',
@@ -412,27 +412,20 @@ def run_job(job, io):
                 site = 'gc'
                 gc.collect()
             elif kind == 'cycle':
-                site = 'cycle'
+                route = tape.choice(CYCLE_ROUTES, 'cycle-route')
+                nest = tape.draw(4, 'cycle-nest')
+                detail = '%s/%d' % (route, nest)
+                site = 'cycle:' + route
                 io.progress({'site': site, 'tape': tape.values})
-                if reg.live:
-                    cls, rns, f = reg.live[tape.draw(len(reg.live), 'ccls')]
-
-                    class Box:
-                        pass
-                    box = Box()
-                    node = cls([ctx.leaf(), [ctx.leaf()]], aux=0)
-                    node.aux = box  # metadata = (rid, box) or Meta((rid, box))
-                    tree = {'n': node} if tape.draw(2, 'cwrap') else node
-                    spec = optree.tree_structure(tree, namespace=rns if rns is not GLOBAL else '')
-                    box.spec = spec
-                    box.again = [spec, box]
-                    marker = weakref.ref(box)
-                    del box, node, tree, spec
-                    gc.collect()
-                    if marker() is not None:
-                        viol('cycle-not-reclaimed', site, 'a treespec reachable only from its own metadata survived gc.collect()')
-                    else:
-                        probes['cycle-reclaimed'] += 1
+                marker = run_cycle(route, nest, tape, ctx)
+                gc.collect()
+                if marker is None:
+                    outcome = 'na'
+                elif marker() is not None:
+                    viol('cycle-not-reclaimed', site, 'a treespec reachable only from its own %s (nesting %d) survived gc.collect()' % (route, nest))
+                else:
+                    probes['cycle-reclaimed'] += 1
+                    probes['cycle-reclaimed:' + route] += 1
         except Exception as ex:  # noqa: BLE001
             if isinstance(ex, (ValueError, TypeError, RuntimeError)) and kind in ('create',):
                 outcome = 'raised:' + type(ex).__name__
@@ -458,6 +451,70 @@ def run_job(job, io):
         out['tape'] = tape.values
         out['ops'] = oplog
     return out
+
+
+CYCLE_ROUTES = ('custom-metadata', 'custom-metadata-childless', 'custom-entries', 'dict-key', 'odict-key', 'defaultdict-factory',
+                'defaultdict-key', 'namedtuple-class', 'empty-namedtuple-class', 'two-specs')
+
+
+class Box:
+    """Hashable-by-identity object that will point back at the treespec that (indirectly) holds it."""
+
+    def __call__(self):
+        return 0
+
+
+def run_cycle(route, nest, tape, ctx):
+    """Build a treespec that is reachable only from an object it holds in one of its node payloads; return a weakref
+    to that object (or None if the route is not applicable).  Everything else is dropped when this function returns."""
+    box = Box()
+    cyc_reg = Registry()
+    ns = 'cyc'
+    try:
+        if route == 'custom-metadata':
+            cyc_reg.register(U.CC, ns, style=tape.choice((0, 3), 'cstyle'))
+            inner = U.CC([ctx.leaf(), [ctx.leaf()]], aux=box)
+        elif route == 'custom-metadata-childless':
+            cyc_reg.register(U.CC, ns, style=tape.choice((0, 1, 3), 'cstyle'))
+            inner = U.CC([], aux=box)
+        elif route == 'custom-entries':
+            cyc_reg.register(U.CC, ns, style=4)
+            inner = U.CC([ctx.leaf(), ctx.leaf()], aux=box)
+        elif route == 'dict-key':
+            inner = {box: ctx.leaf(), 'z': ctx.leaf()} if tape.draw(2, 'dk') else {box: ctx.leaf()}
+        elif route == 'odict-key':
+            inner = OrderedDict([('a', ctx.leaf()), (box, ctx.leaf())])
+        elif route == 'defaultdict-factory':
+            inner = defaultdict(box, {'k': ctx.leaf()}) if tape.draw(2, 'df') else defaultdict(box)
+        elif route == 'defaultdict-key':
+            inner = defaultdict(int, {box: ctx.leaf()})
+        elif route == 'namedtuple-class':
+            ntc = type('CycNT', (collections.namedtuple('CycNTBase', ['a', 'b']),), {'__slots__': (), 'box': box})
+            inner = ntc(ctx.leaf(), ctx.leaf())
+        elif route == 'empty-namedtuple-class':
+            ntc = type('CycNT0', (collections.namedtuple('CycNT0Base', []),), {'__slots__': (), 'box': box})
+            inner = ntc()
+        elif route == 'two-specs':
+            cyc_reg.register(U.CC, ns, style=0)
+            inner = U.CC([ctx.leaf()], aux=box)
+        else:
+            return None
+        tree = inner
+        for lvl in range(nest):
+            tree = ([ctx.leaf(), tree], (tree, None), {'w': tree}, deque([tree]))[(lvl + nest) % 4]
+        spec = optree.tree_structure(tree, namespace=ns)
+        if route == 'two-specs':
+            other = optree.treespec_tuple([spec, spec.child(0) if spec.num_children else spec], namespace=ns)
+            box.spec = other
+            box.again = [spec.children(), other]
+        else:
+            box.spec = spec
+            box.again = [spec, box] if tape.draw(2, 'again') else None
+        if tape.draw(3, 'via-child') == 0 and spec.num_children:
+            box.extra = spec.children()  # treespecs derived from the cyclic one share the payload objects
+        return weakref.ref(box)
+    finally:
+        cyc_reg.unregister_all()
 
 
 def mutate_container(target, how, ctx):
